@@ -522,6 +522,7 @@ package service
 //@ vars (keeper.Keeper).IterateServiceDefinitions: k=github.com/irismod/service/keeper.Keeper#0 ctx=github.com/cosmos/cosmos-sdk/types.Context#0 op=func#0 definition=github.com/irismod/service/types.ServiceDefinition#0 stop=bool#0 store=github.com/cosmos/cosmos-sdk/types.KVStore#0 iterator=github.com/cosmos/cosmos-sdk/types.Iterator#0 definition=github.com/irismod/service/types.ServiceDefinition#1 stop=bool#1
 //@ vars (keeper.Keeper).IterateWithdrawAddresses: k=github.com/irismod/service/keeper.Keeper#0 ctx=github.com/cosmos/cosmos-sdk/types.Context#0 op=func#0 owner=github.com/cosmos/cosmos-sdk/types.AccAddress#0 withdrawAddress=github.com/cosmos/cosmos-sdk/types.AccAddress#1 stop=bool#0 store=github.com/cosmos/cosmos-sdk/types.KVStore#0 iterator=github.com/cosmos/cosmos-sdk/types.Iterator#0 ownerAddress=github.com/cosmos/cosmos-sdk/types.AccAddress#2 withdrawAddress=github.com/cosmos/cosmos-sdk/types.AccAddress#3 stop=bool#1
 //@ props C19 C18 C05 C09 C15
+//@ preserves [C19] wf: WF(raw)
 //@ requires [C19] a3_withdraw_addresses_are_recorded_for_present_owners: forall o Bytes :: {raw[KWAddr(o)]} raw[KWAddr(o)] != bnil ==> len(o) > 0
 //@ loop IterateServiceDefinitions.0 invariant pos_in_range: 0 <= iterator_pos && iterator_pos <= itCount(iterator_snap, iterator_pfx)
 //@ loop IterateServiceDefinitions.0 invariant snapshot: iterator_snap == raw && iterator_pfx == PAllDef
@@ -558,6 +559,7 @@ package service
 //@ ensures [C19] exports_every_context_under_the_hex_form_of_its_id: forall id Bytes :: {raw[KCtx(id)]} raw[KCtx(id)] != bnil ==>
 //@      mapHas_Map_Str_RequestContext(result.RequestContexts, hexstr(id)) && mapGet_Map_Str_RequestContext(result.RequestContexts, hexstr(id)) == ctxOf(raw, id)
 
+//@ ensures [C19,C15] exported_bindings_satisfy_the_record_rules_genesis_validation_checks: forall j Int :: {result.Bindings[j]} 0 <= j && j < len(result.Bindings) ==> bindRecOK(result.Bindings[j])
 //@ ensures [C19] exports_no_other_withdraw_address: forall s Str :: {mapHas_Map_Str_Bytes(result.WithdrawAddresses, s)} mapHas_Map_Str_Bytes(result.WithdrawAddresses, s) ==>
 //@      s == bech32(bech32Decode(s)) && raw[KWAddr(bech32Decode(s))] != bnil
 //@ ensures [C19] exports_no_other_context: forall s Str :: {mapHas_Map_Str_RequestContext(result.RequestContexts, s)} mapHas_Map_Str_RequestContext(result.RequestContexts, s) ==>
